@@ -90,14 +90,14 @@ fn value_bytes(kind: u64, el: u64, m: usize, vs: u64) -> Vec<u8> {
 
 // ---- byte producers (reader / writer kinds): everything comes from the resource string
 #[derive(Clone)]
-struct ByteSpec { data: Vec<u8>, sizes: Vec<usize>, fail: Option<usize>, slp: u64, panic: bool }
+struct ByteSpec { data: Vec<u8>, sizes: Vec<usize>, fail: Option<usize>, slp: u64, panic: bool, eof: bool }
 /// "b:<datahex>:<sizes . separated|->:<fail|->:<slp>:<err|panic>"
 fn parse_bytespec(res: &str) -> Option<ByteSpec> {
     let t: Vec<&str> = res.split(':').collect();
     if t.len() != 6 || t[0] != "b" { return None; }
     let sizes = if t[2] == "-" { vec![] } else { t[2].split('.').map(|s| ph(s).map(|v| v as usize)).collect::<Option<Vec<_>>>()? };
     let fail = if t[3] == "-" { None } else { Some(ph(t[3])? as usize) };
-    Some(ByteSpec { data: unhex(t[1]), sizes, fail, slp: ph(t[4])?, panic: t[5] == "panic" })
+    Some(ByteSpec { data: unhex(t[1]), sizes, fail, slp: ph(t[4])?, panic: t[5] == "panic", eof: t[5] == "eof" })
 }
 /// the same cut as the model's `segment`: each size takes what is left, the rest is one final piece
 fn segments(spec: &ByteSpec) -> Vec<Vec<u8>> {
@@ -109,7 +109,10 @@ fn segments(spec: &ByteSpec) -> Vec<Vec<u8>> {
 }
 fn nap(r: &mut Rng, slp: u64) { if slp != 0 { let us = r.below(3000); if us > 300 { std::thread::sleep(Duration::from_micros(us)); } } }
 
-struct SegReader { segs: std::collections::VecDeque<Vec<u8>>, off: usize, fail: bool, panic: bool, rng: Rng, slp: u64 }
+/// the error a failing producer returns: any kind is a failure of the stream (`eof`: the kind a
+/// `read_exact` on a truncated source reports)
+fn injected(eof: bool, what: &str) -> io::Error { if eof { io::Error::new(io::ErrorKind::UnexpectedEof, what.to_string()) } else { io::Error::other(what.to_string()) } }
+struct SegReader { segs: std::collections::VecDeque<Vec<u8>>, off: usize, fail: bool, panic: bool, eof: bool, rng: Rng, slp: u64 }
 impl Read for SegReader {
     fn read(&mut self, out: &mut [u8]) -> io::Result<usize> {
         if out.is_empty() { return Ok(0); }
@@ -118,7 +121,7 @@ impl Read for SegReader {
             match self.segs.front() {
                 // application code on the producer thread may also panic instead of returning an error
                 None if self.fail && self.panic => panic!("seeded producer panic (reader)"),
-                None => return if self.fail { Err(io::Error::other("injected reader failure")) } else { Ok(0) },
+                None => return if self.fail { Err(injected(self.eof, "injected reader failure")) } else { Ok(0) },
                 Some(s) if self.off >= s.len() => { self.segs.pop_front(); self.off = 0; }
                 Some(s) => {
                     let k = (s.len() - self.off).min(out.len());
@@ -144,14 +147,14 @@ fn build_router(kind: u64, el: u64, n: u64, d: u64, z: bool) -> Router {
         (1, 0) => Router::new().with_typed_value_stream(|r: &str| parse_v(r).map(|(m, vs)| mk_bytes(m, vs)), o),
         (1, _) => Router::new().with_typed_value_stream(|r: &str| parse_v(r).map(|(m, vs)| mk_f64(m, vs)), o),
         (2, _) => Router::new().with_complex_value_stream(|r: &str| parse_v(r).map(|(m, vs)| mk_cplx(m, vs)), o),
-        (3, _) => Router::new().with_reader_stream(|r: &str| parse_bytespec(r).map(|s| SegReader { segs: segments(&s).into_iter().filter(|x| !x.is_empty()).collect(), off: 0, fail: s.fail.is_some(), panic: s.panic, rng: Rng::new(s.slp), slp: s.slp }), o),
+        (3, _) => Router::new().with_reader_stream(|r: &str| parse_bytespec(r).map(|s| SegReader { segs: segments(&s).into_iter().filter(|x| !x.is_empty()).collect(), off: 0, fail: s.fail.is_some(), panic: s.panic, eof: s.eof, rng: Rng::new(s.slp), slp: s.slp }), o),
         _ => Router::new().with_writer_stream(BodyFormat::RawBinary, |r: &str| parse_bytespec(r).map(|s| -> WriterFn {
             Box::new(move |w: &mut dyn Write| {
                 let mut rng = Rng::new(s.slp ^ 0x77);
                 // flush after every write: a flush must never cut a short chunk
                 for seg in segments(&s) { nap(&mut rng, s.slp); w.write_all(&seg)?; w.flush()?; }
                 if s.fail.is_some() && s.panic { panic!("seeded producer panic (writer)"); }
-                if s.fail.is_some() { Err(io::Error::other("injected writer failure")) } else { Ok(()) }
+                if s.fail.is_some() { Err(injected(s.eof, "injected writer failure")) } else { Ok(()) }
             })
         }), o),
     }
@@ -377,7 +380,7 @@ fn run_case(line: &str) -> String {
         Some(Case { kind: g("kind")?, el: g("el")?, pull: g("pull")?, n: g("n")?, d: g("d")?, z: g("z")? != 0, data: unhex(f.get("data")?), w: f.get("w")?.clone(), f: f.get("f")?.clone(), fk: f.get("fk").cloned().unwrap_or_else(|| "err".into()), cj: g("cj")?, slp: g("slp")?, vm: g("vm")?, vs: g("vs")? })
     })();
     let Some(c) = parsed else { return "crash=badcase:parse".into() };
-    if c.n == 0 || c.kind > 4 || c.pull > 2 || (c.fk != "err" && c.fk != "panic") { return "crash=badcase:range".into(); }
+    if c.n == 0 || c.kind > 4 || c.pull > 2 || (c.fk != "err" && c.fk != "panic" && c.fk != "eof") { return "crash=badcase:range".into(); }
     static HOOK: std::sync::Once = std::sync::Once::new();
     static LAST: Mutex<String> = Mutex::new(String::new());
     HOOK.call_once(|| std::panic::set_hook(Box::new(|i| { *LAST.lock().unwrap_or_else(|e| e.into_inner()) = i.to_string(); })));
@@ -396,7 +399,7 @@ impl Gen {
         let ws = if w.is_empty() { "-".to_string() } else { w.iter().map(|x| hx(*x)).collect::<Vec<_>>().join(".") };
         for pull in pulls {
             self.out.push(((kind, el, n, d, z), format!("kind={} el={} pull={} n={} d={} z={} data={} w={} f={} fk={} cj={} slp={} vm={} vs={}",
-                kind, el, pull, hx(n), hx(d), z as u8, hex(data), ws, f.map(|(k, _)| hx(k)).unwrap_or_else(|| "-".into()), if matches!(f, Some((_, true))) { "panic" } else { "err" }, hx(cj), hx(slp), hx(vm), hx(vs))));
+                kind, el, pull, hx(n), hx(d), z as u8, hex(data), ws, f.map(|(k, _)| hx(k)).unwrap_or_else(|| "-".into()), if matches!(f, Some((_, true))) { "panic" } else if self.k % 2 == 0 { "eof" } else { "err" }, hx(cj), hx(slp), hx(vm), hx(vs))));
         }
     }
 }
